@@ -1,7 +1,7 @@
 //! A converter to convert between the Garble Circuit and the Bristol fashion circuit format.
 //! https://nigelsmart.github.io/MPC-Circuits/
 
-use crate::circuit::{Circuit, Gate, PANIC_RESULT_SIZE_IN_BITS};
+use crate::circuit::{Circuit, Gate, MAX_GATES, PANIC_RESULT_SIZE_IN_BITS};
 use std::{
     collections::{HashMap, HashSet},
     fs::File,
@@ -301,7 +301,10 @@ impl Circuit {
                     expected_parties,
                 ));
             }
-            let input_wires: usize = input_gates.iter().sum();
+            let input_wires = input_gates
+                .iter()
+                .try_fold(0usize, |sum, n| sum.checked_add(*n))
+                .ok_or_else(|| FromBristolError::MalformedLine(line_str.clone()))?;
             (input_gates, input_wires)
         };
 
@@ -319,15 +322,33 @@ impl Circuit {
                     num_outputs,
                 ));
             }
-            let num_output_wires = gates_per_output.iter().sum::<usize>();
+            let num_output_wires = gates_per_output
+                .iter()
+                .try_fold(0usize, |sum, n| sum.checked_add(*n))
+                .ok_or_else(|| FromBristolError::MalformedLine(line_str.clone()))?;
+            // Every wire that is not an input must be the output of a gate (one gate per line),
+            // which bounds the number of such wires by the size of the file; outputs are wires.
+            let lines_left = lines.len();
+            match wires_num.checked_sub(input_wires_num) {
+                Some(gate_wires)
+                    if gate_wires <= lines_left
+                        && num_output_wires <= wires_num
+                        && wires_num <= MAX_GATES => {}
+                _ => return Err(FromBristolError::MalformedLine(line_str)),
+            }
             (vec![0; num_output_wires], num_output_wires)
         };
 
-        // Create the wires map to map the wires in the Bristol format to the wires in the Garble format.
-        let mut wires_map = vec![0; wires_num];
-        for (i, wire) in wires_map.iter_mut().take(input_wires_num).enumerate() {
-            *wire = i;
-        }
+        // Map the non-input wires of the Bristol format to the wires in the Garble format (input
+        // wires keep their index).
+        let mut wires_map = vec![0; wires_num - input_wires_num];
+        let map_wire = |wires_map: &[usize], wire: usize| {
+            if wire < input_wires_num {
+                wire
+            } else {
+                wires_map[wire - input_wires_num]
+            }
+        };
         let mut next_wire = input_wires_num;
 
         // Parse gates
@@ -342,7 +363,7 @@ impl Circuit {
             }
             let num_inputs: usize = parts[0].parse()?;
             let num_outputs: usize = parts[1].parse()?;
-            if num_outputs != 1 || parts.len() != num_inputs + 4 {
+            if num_outputs != 1 || parts.len().checked_sub(4) != Some(num_inputs) {
                 return Err(FromBristolError::MalformedLine(line_str));
             }
             let input_wires: Vec<usize> = parts[2..(2 + num_inputs)]
@@ -366,8 +387,12 @@ impl Circuit {
                 output_gates[output_wire - (wires_num - num_output_wires)] = next_wire;
             }
 
-            wires_map[output_wire] = next_wire;
-            next_wire += 1;
+            if output_wire >= input_wires_num {
+                wires_map[output_wire - input_wires_num] = next_wire;
+            }
+            next_wire = next_wire
+                .checked_add(1)
+                .ok_or_else(|| FromBristolError::MalformedLine(line_str.clone()))?;
 
             let gate = match *gate_type {
                 "XOR" | "AND" => {
@@ -375,16 +400,22 @@ impl Circuit {
                         return Err(FromBristolError::MalformedLine(line_str));
                     }
                     if *gate_type == "XOR" {
-                        Gate::Xor(wires_map[input_wires[0]], wires_map[input_wires[1]])
+                        Gate::Xor(
+                            map_wire(&wires_map, input_wires[0]),
+                            map_wire(&wires_map, input_wires[1]),
+                        )
                     } else {
-                        Gate::And(wires_map[input_wires[0]], wires_map[input_wires[1]])
+                        Gate::And(
+                            map_wire(&wires_map, input_wires[0]),
+                            map_wire(&wires_map, input_wires[1]),
+                        )
                     }
                 }
                 "INV" => {
                     if input_wires.len() != 1 {
                         return Err(FromBristolError::MalformedLine(line_str));
                     }
-                    Gate::Not(wires_map[input_wires[0]])
+                    Gate::Not(map_wire(&wires_map, input_wires[0]))
                 }
                 _ => {
                     return Err(FromBristolError::UnknownGate(gate_type.to_string()));
